@@ -3288,3 +3288,263 @@ func (r *Report) ShuffleShape(key, fnKey string) {
 	}
 	r.OK(k, d, w.Pos(rem.Pos()), "shape matches")
 }
+
+// ---- channel helpers (daemon rules)
+
+func sendsOn(fn *ssa.Function, chanAtoms ...string) []*ssa.Send {
+	var out []*ssa.Send
+	for _, b := range fn.Blocks {
+		for _, in := range b.Instrs {
+			if s, ok := in.(*ssa.Send); ok && Render(s.Chan).Has(chanAtoms...) {
+				out = append(out, s)
+			}
+		}
+	}
+	return out
+}
+
+// SendValueHas: every value sent on the channel contains atoms.
+func (r *Report) SendValueHas(key, fnKey, ch string, atoms ...string) {
+	w := r.W
+	fn := w.Fn(fnKey)
+	d := fmt.Sprintf("every value sent on %s in %s is built from {%s}", ch, fnKey, strings.Join(atoms, ", "))
+	k := key + "|" + fnKey + "|" + ch
+	if fn == nil {
+		r.Unres(k, d, "function not found")
+		return
+	}
+	ss := sendsOn(fn, ch)
+	if len(ss) == 0 {
+		r.Unres(k, d, "no send")
+		return
+	}
+	for _, s := range ss {
+		t := Render(s.X)
+		if !t.Has(atoms...) {
+			r.Bad(k, d, w.posOr(s.Pos(), fn), "sent value is "+clip(t.String(), 200))
+			return
+		}
+	}
+	r.OK(k, d, w.FnPos(fn), fmt.Sprintf("%d send(s)", len(ss)))
+}
+
+// GateSend: the sends whose value contains `sel` also contain `must` and are gated by conds.
+func (r *Report) GateSend(key, fnKey string, sel, must []string, conds []Cond) {
+	w := r.W
+	fn := w.Fn(fnKey)
+	d := fmt.Sprintf("in %s the send carrying %v also carries %v and happens only under %v", fnKey, sel, must, conds)
+	k := key + "|" + fnKey
+	if fn == nil {
+		r.Unres(k, d, "function not found")
+		return
+	}
+	ifs := w.ifs(fn)
+	n := 0
+	for _, b := range fn.Blocks {
+		for _, in := range b.Instrs {
+			s, ok := in.(*ssa.Send)
+			if !ok || !Render(s.X).Has(sel...) {
+				continue
+			}
+			n++
+			if !Render(s.X).Has(must...) {
+				r.Bad(k, d, w.posOr(s.Pos(), fn), "sent value lacks "+strings.Join(must, ",")+": "+clip(Render(s.X).String(), 160))
+				return
+			}
+			for _, c := range conds {
+				if ok, _, det := w.gatedBy(fn, ifs, Site{in, b, "send"}, c); !ok {
+					r.Bad(k, d, w.posOr(s.Pos(), fn), "send not gated by "+c.String()+": "+det)
+					return
+				}
+			}
+		}
+	}
+	if n == 0 {
+		r.Unres(k, d, "no such send")
+		return
+	}
+	r.OK(k, d, w.FnPos(fn), fmt.Sprintf("%d send(s)", n))
+}
+
+// SendsUnder: every send on ch whose value does NOT contain `unless` contains `must`.
+func (r *Report) SendsUnder(key, fnKey, ch, unless, must string) {
+	w := r.W
+	fn := w.Fn(fnKey)
+	d := fmt.Sprintf("in %s every send on %s that does not carry %s carries %s", fnKey, ch, unless, must)
+	k := key + "|" + fnKey
+	if fn == nil {
+		r.Unres(k, d, "function not found")
+		return
+	}
+	n := 0
+	for _, s := range sendsOn(fn, ch) {
+		t := Render(s.X)
+		if t.Has(unless) {
+			continue
+		}
+		n++
+		if !t.Has(must) {
+			r.Bad(k, d, w.posOr(s.Pos(), fn), "sent value is "+clip(t.String(), 160))
+			return
+		}
+	}
+	if n == 0 {
+		r.Unres(k, d, "no failure send")
+		return
+	}
+	r.OK(k, d, w.FnPos(fn), fmt.Sprintf("%d failure send(s)", n))
+}
+
+// ChanShape (C19.R2): make(chan T, len(reqs)); a `go` per element of reqs passing that channel; a receive per element of
+// the same reqs; every received rawReport appended to the result.
+func (r *Report) ChanShape(key, fnKey string) {
+	w := r.W
+	fn := w.Fn(fnKey)
+	d := "result channel buffered to len(reqs); one goroutine and one receive per element of the same slice; each received report appended"
+	k := key + "|" + fnKey
+	if fn == nil {
+		r.Unres(k, d, "function not found")
+		return
+	}
+	w.FuncsAnalysed[fn] = true
+	var mk *ssa.MakeChan
+	var gos []*ssa.Go
+	var recvs []*ssa.UnOp
+	for _, b := range fn.Blocks {
+		for _, in := range b.Instrs {
+			switch x := in.(type) {
+			case *ssa.MakeChan:
+				mk = x
+			case *ssa.Go:
+				gos = append(gos, x)
+			case *ssa.UnOp:
+				if x.Op == token.ARROW {
+					recvs = append(recvs, x)
+				}
+			}
+		}
+	}
+	if mk == nil || len(gos) != 1 || len(recvs) != 1 {
+		r.Bad(k, d, w.FnPos(fn), fmt.Sprintf("shape changed: makechan=%v go=%d recv=%d", mk != nil, len(gos), len(recvs)))
+		return
+	}
+	if !Render(mk.Size).Has("^len", "param:reqs") {
+		r.Bad(k, d, w.posOr(mk.Pos(), fn), "channel capacity is "+Render(mk.Size).String()+", not len(reqs): a worker could block forever or results be lost")
+		return
+	}
+	passes := false
+	for _, a := range gos[0].Call.Args {
+		if seeThrough(a) == ssa.Value(mk) {
+			passes = true
+		}
+	}
+	if !passes || !nameMatch(CalleeName(&gos[0].Call), "yoda.handleRawRequest") {
+		r.Bad(k, d, w.posOr(gos[0].Pos(), fn), "the goroutine is not handleRawRequest with the result channel")
+		return
+	}
+	if seeThrough(recvs[0].X) != ssa.Value(mk) {
+		r.Bad(k, d, w.posOr(recvs[0].Pos(), fn), "receive is not on the result channel")
+		return
+	}
+	// both loops are bounded by len(reqs)
+	loopBound := func(b *ssa.BasicBlock) bool {
+		for d := b; d != nil; d = d.Idom() {
+			if ifi := ifOf(d); ifi != nil {
+				p := NormalizeCond(ifi.Cond)
+				if p.Op == "LSS" && p.B != nil && p.B.Has("^len", "param:reqs") && d.Dominates(b) && reachFrom(b, nil)[d] {
+					return true
+				}
+			}
+		}
+		return false
+	}
+	if !loopBound(gos[0].Block()) || !loopBound(recvs[0].Block()) {
+		r.Bad(k, d, w.FnPos(fn), "spawn loop or receive loop is not `range reqs`")
+		return
+	}
+	// appended
+	app := false
+	for _, c := range Calls(fn, "builtin.append") {
+		if renderCall(c).Has("field:processingResult.rawReport", "recv") {
+			app = true
+		}
+	}
+	if !app {
+		r.Bad(k, d, w.FnPos(fn), "received rawReport is not appended to the reports")
+		return
+	}
+	// the append is unconditional within the receive loop
+	r.OK(k, d, w.FnPos(fn), "shape matches")
+}
+
+// DeferredSend: fn defers (before any return) a closure or call that sends on the channel.
+func (r *Report) DeferredSend(key, fnKey, ch string) {
+	w := r.W
+	fn := w.Fn(fnKey)
+	d := fmt.Sprintf("%s installs, before its first return, a defer that sends on %s", fnKey, ch)
+	k := key + "|" + fnKey
+	if fn == nil {
+		r.Unres(k, d, "function not found")
+		return
+	}
+	for _, b := range fn.Blocks {
+		for _, in := range b.Instrs {
+			df, ok := in.(*ssa.Defer)
+			if !ok {
+				continue
+			}
+			mc, ok := df.Call.Value.(*ssa.MakeClosure)
+			if !ok {
+				continue
+			}
+			cf := mc.Fn.(*ssa.Function)
+			if len(sendsOn(cf, ch)) == 0 {
+				continue
+			}
+			// no return reachable before the defer: the defer's block dominates every return
+			okAll := true
+			for _, rb := range fn.Blocks {
+				if rt := returnOf(rb); rt != nil && rb != fn.Recover && !b.Dominates(rb) {
+					okAll = false
+				}
+			}
+			if okAll {
+				r.OK(k, d, w.Pos(df.Pos()), "deferred release dominates every return")
+				return
+			}
+			r.Bad(k, d, w.posOr(df.Pos(), fn), "a return can happen before the defer is installed")
+			return
+		}
+	}
+	r.Bad(k, d, w.FnPos(fn), "no deferred send on the channel")
+}
+
+// DaemonPanics: explicit panics and Must* calls in the functions of a package prefix ⊆ accepted table.
+func (r *Report) DaemonPanics(key, prefix string, table []panicAllow) {
+	w := r.W
+	var roots []*ssa.Function
+	for k, fn := range w.Funcs {
+		if strings.HasPrefix(k, prefix) && len(fn.Blocks) > 0 && fn.Parent() == nil {
+			roots = append(roots, fn)
+		}
+	}
+	sort.Slice(roots, func(i, j int) bool { return FuncKey(roots[i]) < FuncKey(roots[j]) })
+	r.Census(key, roots, table, "the functions of package "+strings.TrimSuffix(prefix, "."))
+}
+
+// PositiveSlices: E11 fires on the shipped positive example and stays quiet on its guarded twin.
+func (r *Report) PositiveSlices(key string) {
+	d := "the E11 rule fires on the shipped positive example"
+	w, err := loadPositive()
+	if err != nil {
+		r.Unres(key, d, err.Error())
+		return
+	}
+	bad := w.UnguardedConstSlices(w.Funcs["bandcheck/testdata/lintpos.ShortSlice"])
+	good := w.UnguardedConstSlices(w.Funcs["bandcheck/testdata/lintpos.GuardedSlice"])
+	if len(bad) == 2 && len(good) == 0 {
+		r.OK(key, d, "checker/testdata/lintpos/pos.go", "b[3] and s[:4] flagged; guarded b[:8] accepted")
+	} else {
+		r.Unres(key, d, fmt.Sprintf("positive example: flagged=%d (want 2), guarded flagged=%d (want 0)", len(bad), len(good)))
+	}
+}
